@@ -450,6 +450,138 @@ func c15Bytes(shard, nshards int) vh.Unit {
 	}}
 }
 
+// the real binary: hostile requests over HTTP and over WebSocket must neither kill the process
+// (a panic in a per-request goroutine would) nor make it stop serving another connection
+func c15Wire() vh.Unit {
+	return vh.Unit{Name: "wire/hostile-requests", Run: func(u *vh.U) {
+		p, err := vh.StartPool()
+		if err != nil {
+			u.R.Infra = err.Error()
+			return
+		}
+		defer p.Stop()
+		cast := vh.StdCast()
+		other, err := p.DialWS() // the bystander connection
+		if err != nil {
+			u.Violate("wire/websocket-dial-failed", err.Error(), nil)
+			return
+		}
+		defer other.Close()
+		ws, _ := p.DialWS()
+		defer func() {
+			if ws != nil {
+				ws.Close()
+			}
+		}()
+		vals := c15Values(cast)
+		ping := `{"jsonrpc":"2.0","id":424242,"method":"vipnode_ping","params":[]}`
+		n := 0
+		send := func(text string, wellFormedRequest bool) bool {
+			n++
+			u.R.Evaluations++
+			u.R.States++
+			u.R.Transitions += 2
+			u.R.Traces++
+			_, body, herr := p.Post(text)
+			if !p.Alive() {
+				u.Violate("wire/pool-died", fmt.Sprintf("the pool process exited after HTTP request %s\n%s", abbreviate(text), firstN(tailOf(p.Output(), 1500), 1500)), nil)
+				return false
+			}
+			if wellFormedRequest && herr == nil {
+				if r, derr := vh.DecodeReply(body); derr != nil || (r.Error == nil && len(r.Result) == 0) {
+					u.Violate("wire/malformed-http-reply", fmt.Sprintf("%s -> %q", abbreviate(text), abbreviate(body)), nil)
+				}
+			}
+			// same request over WebSocket, then the connection must still answer a ping
+			if ws == nil {
+				ws, _ = p.DialWS()
+			}
+			if ws != nil {
+				if err := ws.Send(text); err == nil && wellFormedRequest {
+					if _, err := ws.Recv(5 * time.Second); err != nil {
+						u.Violate("wire/no-reply-over-websocket", fmt.Sprintf("%s: %v", abbreviate(text), err), nil)
+						ws.Close()
+						ws = nil
+					} else if r, err := ws.Call(ping, 5*time.Second); err != nil || !strings.Contains(r, "pong") {
+						u.Violate("wire/hostile-request-cost-its-connection", fmt.Sprintf("after %s a ping on the same WebSocket connection got %q %v", abbreviate(text), r, err), nil)
+						ws.Close()
+						ws = nil
+					}
+				} else if !wellFormedRequest {
+					ws.Close() // a malformed stream may cost the sender its own connection
+					ws = nil
+				}
+			}
+			if !p.Alive() {
+				u.Violate("wire/pool-died", fmt.Sprintf("the pool process exited after WebSocket request %s\n%s", abbreviate(text), firstN(tailOf(p.Output(), 1500), 1500)), nil)
+				return false
+			}
+			if n%10 == 0 {
+				if r, err := other.Call(ping, 5*time.Second); err != nil || !strings.Contains(r, "pong") {
+					u.Violate("wire/other-connection-not-served", fmt.Sprintf("after %s the bystander connection got %q %v", abbreviate(text), r, err), nil)
+					return false
+				}
+			}
+			u.Observe(fmt.Sprint(wellFormedRequest, len(body) > 0))
+			return true
+		}
+		id := 0
+		for _, m := range vh.ProdMethods {
+			nargs := c15Arity[m]
+			valid := c15ValidArgs(m, cast)
+			for _, v := range vals {
+				for pos := 0; pos < nargs; pos++ {
+					if !u.Thorough() && (pos+len(v))%3 != 0 {
+						continue
+					}
+					args := append([]string{}, valid...)
+					args[pos] = v
+					id++
+					if !send(fmt.Sprintf(`{"jsonrpc":"2.0","id":%d,"method":%q,"params":[%s]}`, id, m, strings.Join(args, ",")), true) {
+						return
+					}
+				}
+			}
+		}
+		// correctly signed but hostile (real-time nonces: the binary runs on the real clock)
+		C := cast.ByName["C1"]
+		if !send(vh.RequestText(vh.NewCall("vipnode_connect", C, vh.WireNonce(), vh.DefaultParam("vipnode_connect", "")), 900001), true) {
+			return
+		}
+		for _, num := range []int{-2147483648, -1, 0, 2147483648, 1 << 62} {
+			if !send(vh.RequestText(vh.NewCall("vipnode_peer", C, vh.WireNonce(), pool.PeerRequest{Num: num}), 900002), true) {
+				return
+			}
+		}
+		for _, enode := range []string{strings.Repeat("d", 130), "enode://short", strings.Repeat("e", 137)} {
+			req := pool.UpdateRequest{PeerInfo: []ethnode.PeerInfo{{ID: "x", Enode: enode}}}
+			if !send(vh.RequestText(vh.NewCall("vipnode_update", C, vh.WireNonce(), req), 900003), true) {
+				return
+			}
+		}
+		for _, sig := range []string{"", "AA==", strings.Repeat("A", 84)} {
+			c := vh.NewCall("vipnode_update", C, vh.WireNonce(), pool.UpdateRequest{})
+			c.Sig = sig
+			if !send(vh.RequestText(c, 900004), true) {
+				return
+			}
+		}
+		for _, raw := range []string{`{"jsonrpc":"2.0","id":1}`, `[]`, `{"id":5,"method":7}`, `{`, `null`, `{"jsonrpc":"2.0","id":5,"result":"x"}`, `{"jsonrpc":"2.0","id":6,"result":null,"error":null}`} {
+			if !send(raw, false) {
+				return
+			}
+		}
+		u.Sample(fmt.Sprintf("%d hostile requests sent to the real binary over HTTP and WebSocket with a bystander connection pinged every 10", n))
+	}}
+}
+
+func tailOf(s string, n int) string {
+	if len(s) > n {
+		return s[len(s)-n:]
+	}
+	return s
+}
+
 type rwcT struct{ *bytes.Reader }
 
 func (rwcT) Write(p []byte) (int, error) { return len(p), nil }
@@ -473,7 +605,7 @@ func init() {
 			for s := 0; s < 6; s++ {
 				us = append(us, c15Signed(s, 6))
 			}
-			us = append(us, c15Envelopes())
+			us = append(us, c15Envelopes(), c15Wire())
 			n := 4
 			if tier == "thorough" {
 				n = 12
